@@ -184,7 +184,7 @@ def extra_checks(pid, tier, seed, exe, workdir):
 EXTRA = {}
 
 HOOK_COMMITS = ["ec0e30b"]
-FIX_COMMITS = ["f38d614", "53a1696", "ab48bfa", "c882549", "be58dcf", "e268d80", "a281c03", "d168209", "866ad45", "ff93241", "ff97c81", "1d033aa", "67b591f", "56a0235"]
+FIX_COMMITS = ["f38d614", "53a1696", "ab48bfa", "c882549", "be58dcf", "e268d80", "a281c03", "d168209", "866ad45", "ff93241", "ff97c81", "1d033aa", "67b591f", "56a0235", "341c413"]
 
 _MODELLED = ("Modelled, not verified: the C++ itself; the theorems are about the Gallina model "
              "(coq/theories/Model), tied to the code only by the correspondence run. ")
